@@ -1,1 +1,3 @@
 import Ypv.Props.C10
+#print axioms Ypv.C10.unique_anchor_terminates_fresh
+#print axioms Ypv.C10.no_duplicate_anchor_of_oneObj
